@@ -240,14 +240,22 @@ def probe_independence(ctx, F, seen, what, r, operands):
 
 def _ops_part(ctx, res):
     F, seen = res["findings"], set()
-    for (name, fn), kind in itertools.product(BIN, KINDS):
+    combos = [(nf, kind, None) for nf, kind in itertools.product(BIN, KINDS)]
+    # identity / absorbing scalars (0 and 1) on either side: shortcuts for them must still give new objects
+    combos += [(nf, kind, sc) for nf in BIN for kind in ("vs", "sv") for sc in (0.0, 1.0, 0, 1, True, False)]
+    for (name, fn), kind, special in combos:
         a, b, na, nb, lead = operand(ctx, kind, 0)
+        if special is not None:
+            if kind == "vs":
+                b = nb = special
+            else:
+                a = na = special
         ops_ = [a, b]
         vs = [o for o in ops_ if isinstance(o, pf.CellVariable)]
         before = [snap(o) for o in vs]
         for o in vs:
             freeze(o)
-        what = "%s:%s|" % (name, kind)
+        what = "%s:%s%s|" % (name, kind, "" if special is None else ":scalar=%r" % (special,))
         try:
             r = fn(a, b)
         except Exception as e:  # noqa: BLE001
